@@ -74,6 +74,12 @@ type PeerOpts struct {
 	ResumeResponse bool
 	// resumption (scripted server)
 	ResumeReply string // "AUTHORIZED", "SID_NOT_FOUND", "GARBAGE", "CLOSE", "DENIED"
+	// TOKEN (AKEP2) sub-protocol
+	TokenText    string // scripted client: the "header.payload" text it presents
+	TokenSig     []byte // scripted client: the signature it knows (nil: it does not know one and sends a random proof)
+	TokenClaimID string // scripted client: the identity it claims in step 1
+	TokenRawKey  []byte // scripted server: the signing key it holds (nil: it holds none and sends a random proof)
+	TokenPool    bool   // scripted server: TokenRawKey is the pool key
 }
 
 // PeerLog is what the scripted peer observed.
@@ -87,6 +93,11 @@ type PeerLog struct {
 	PostAuthAd      *classad.ClassAd
 	ResumeRequested string
 	Err             error
+	// TOKEN sub-protocol observations
+	TokenReceived   string // scripted server: token text received
+	TokenClaimedID  string // scripted server: identity claimed in step 1
+	PeerProofOK     bool   // the peer's proof matched the reference AKEP2 computation
+	PeerProofSeen   bool
 }
 
 func (l *PeerLog) step(f string, a ...any) { l.Steps = append(l.Steps, fmt.Sprintf(f, a...)) }
@@ -283,7 +294,7 @@ func ScriptedServer(conn *BufConn, o PeerOpts, limit time.Duration) (log *PeerLo
 			}
 			sel := o.SelectBits
 			if sel == 0 {
-				for _, b := range []int{BitClaimToBe, BitFS} {
+				for _, b := range []int{BitClaimToBe, BitFS, BitToken} {
 					if bitsOf(o.AuthMethods)&b != 0 && mask&b != 0 {
 						sel = b
 						break
@@ -345,6 +356,67 @@ func ScriptedServer(conn *BufConn, o PeerOpts, limit time.Duration) (log *PeerLo
 					log.AuthCompleted = "FS"
 					log.step("fs completed")
 				}
+			case BitToken:
+				tm := message.NewMessageFromStream(s)
+				status, err := tm.GetInt(ctx)
+				if err != nil {
+					return fail(err)
+				}
+				alen, _ := tm.GetInt(ctx)
+				a, _ := tm.GetString(ctx)
+				tok, _ := tm.GetString(ctx)
+				ralen, _ := tm.GetInt(ctx)
+				ra, err := tm.GetBytes(ctx, ralen)
+				if err != nil && ralen > 0 {
+					return fail(err)
+				}
+				_ = alen
+				log.TokenReceived, log.TokenClaimedID = tok, a
+				log.step("token step 1: status %d id %q token %d bytes", status, a, len(tok))
+				rb := make([]byte, 256)
+				_, _ = rand.Read(rb)
+				b := "server@verif.test"
+				var keys AKEP2Keys
+				proof := make([]byte, 20)
+				_, _ = rand.Read(proof)
+				if o.TokenRawKey != nil {
+					_, sig := RefSignParts(o.TokenRawKey, o.TokenPool, strings.SplitN(tok+".", ".", 3)[0], strings.SplitN(tok+".", ".", 3)[1])
+					keys = RefAKEP2Keys(sig, tok)
+					proof = keys.ServerProof(a, b, ra, rb)
+				}
+				sm := message.NewMessageForStream(s)
+				_ = sm.PutInt(ctx, 0)
+				_ = sm.PutInt(ctx, len(a))
+				_ = sm.PutString(ctx, a)
+				_ = sm.PutInt(ctx, len(b))
+				_ = sm.PutString(ctx, b)
+				_ = sm.PutInt(ctx, len(ra))
+				_ = sm.PutBytes(ctx, ra)
+				_ = sm.PutInt(ctx, len(rb))
+				_ = sm.PutBytes(ctx, rb)
+				_ = sm.PutInt(ctx, len(proof))
+				_ = sm.PutBytes(ctx, proof)
+				if err := sm.FinishMessage(ctx); err != nil {
+					return fail(err)
+				}
+				cm := message.NewMessageFromStream(s)
+				st3, err := cm.GetInt(ctx)
+				if err != nil {
+					return fail(err)
+				}
+				_, _ = cm.GetInt(ctx)
+				a3, _ := cm.GetString(ctx)
+				rblen, _ := cm.GetInt(ctx)
+				rbEcho, _ := cm.GetBytes(ctx, rblen)
+				maclen, _ := cm.GetInt(ctx)
+				mac, _ := cm.GetBytes(ctx, maclen)
+				log.PeerProofSeen = true
+				log.PeerProofOK = o.TokenRawKey != nil && st3 == 0 && a3 == a && string(rbEcho) == string(rb) && string(mac) == string(keys.ClientProof(a, rb))
+				log.step("token step 3: status %d proof ok %v", st3, log.PeerProofOK)
+				if st3 != 0 {
+					continue
+				}
+				log.AuthCompleted = "TOKEN"
 			case 0:
 				continue
 			default:
@@ -534,6 +606,70 @@ func ScriptedClient(conn *BufConn, o PeerOpts, limit time.Duration) (log *PeerLo
 				if ok == 0 {
 					log.AuthCompleted = "FS"
 				}
+			case BitToken:
+				ra := make([]byte, 256)
+				_, _ = rand.Read(ra)
+				tm := message.NewMessageForStream(s)
+				_ = tm.PutInt(ctx, 0)
+				_ = tm.PutInt(ctx, len(o.TokenClaimID))
+				_ = tm.PutString(ctx, o.TokenClaimID)
+				_ = tm.PutString(ctx, o.TokenText)
+				_ = tm.PutInt(ctx, len(ra))
+				_ = tm.PutBytes(ctx, ra)
+				if err := tm.FinishMessage(ctx); err != nil {
+					return fail(err)
+				}
+				sm := message.NewMessageFromStream(s)
+				st2, err := sm.GetInt(ctx)
+				if err != nil {
+					return fail(err)
+				}
+				_, _ = sm.GetInt(ctx)
+				a2, _ := sm.GetString(ctx)
+				_, _ = sm.GetInt(ctx)
+				b2, _ := sm.GetString(ctx)
+				n, _ := sm.GetInt(ctx)
+				raEcho, _ := sm.GetBytes(ctx, n)
+				n, _ = sm.GetInt(ctx)
+				rb, _ := sm.GetBytes(ctx, n)
+				n, _ = sm.GetInt(ctx)
+				mac, _ := sm.GetBytes(ctx, n)
+				log.step("token step 2: status %d id echo %q server id %q", st2, a2, b2)
+				var keys AKEP2Keys
+				proof := make([]byte, 20)
+				_, _ = rand.Read(proof)
+				if o.TokenSig != nil {
+					keys = RefAKEP2Keys(o.TokenSig, o.TokenText)
+					log.PeerProofSeen = true
+					log.PeerProofOK = st2 == 0 && string(raEcho) == string(ra) && string(mac) == string(keys.ServerProof(a2, b2, ra, rb))
+					proof = keys.ClientProof(a2, rb)
+				}
+				if st2 != 0 {
+					a2, rb, proof = "", nil, nil
+				}
+				cm := message.NewMessageForStream(s)
+				_ = cm.PutInt(ctx, 0)
+				_ = cm.PutInt(ctx, len(a2))
+				_ = cm.PutString(ctx, a2)
+				_ = cm.PutInt(ctx, len(rb))
+				_ = cm.PutBytes(ctx, rb)
+				_ = cm.PutInt(ctx, len(proof))
+				_ = cm.PutBytes(ctx, proof)
+				if err := cm.FinishMessage(ctx); err != nil {
+					return fail(err)
+				}
+				// A zero bitmask right behind step 3: a server that rejected the exchange reads it
+				// ("client has no more methods") and returns at once instead of waiting; a server
+				// that accepted never reads it during the handshake.
+				_ = sendInts(ctx, s, 0)
+				// the server continues with its key-exchange message only if it accepted
+				if hk, err := recvInt(ctx, s); err == nil && hk == 0 {
+					log.AuthCompleted = "TOKEN"
+					log.step("server accepted the token exchange")
+					goto authDone
+				} else {
+					return fail(fmt.Errorf("peer: server did not accept the token exchange (%v)", err))
+				}
 			case 0:
 				return fail(fmt.Errorf("peer: server rejected all methods"))
 			default:
@@ -549,6 +685,7 @@ func ScriptedClient(conn *BufConn, o PeerOpts, limit time.Duration) (log *PeerLo
 		if hk, err := recvInt(ctx, s); err != nil || hk != 0 {
 			return fail(fmt.Errorf("peer: key exchange message: %d %v", hk, err))
 		}
+	authDone:
 		log.step("authentication %s completed", log.AuthCompleted)
 	}
 	if o.Key == KeyHonest && strings.Contains(o.CryptoMethods, "AES") {
